@@ -40,6 +40,31 @@ def styled(e, rng):
     return e
 
 
+def gen_big(ctx, part):
+    cfg = 'CONSTANTS Part = "%s"\nINIT Init\nNEXT Next\nINVARIANT Emit\nCHECK_DEADLOCK FALSE\n' % part
+    out, st = ctx.tlc("Gen_Big", cfg_text=cfg, workers=8, name="gen:big:" + part, timeout=1200)
+    cs = ctx.printed(out, "CASE")
+    cs.sort(key=lambda c: json.dumps(c, sort_keys=True))
+    return cs
+
+
+def named_big(e, defs):
+    """every literal leaf replaced by an EQU name (shared by all trees of the program)"""
+    if e["o"] == "nb":
+        nm = "W%x" % render.bigval(e)
+        defs[nm] = dict(e)
+        return {"o": "id", "nm": nm}
+    if e["o"] == "n":
+        nm = ("KM%d" % -e["v"]) if e["v"] < 0 else "K%d" % e["v"]
+        defs[nm] = dict(e)
+        return {"o": "id", "nm": nm}
+    r = dict(e)
+    r["a"] = named_big(e["a"], defs)
+    if "b" in e:
+        r["b"] = named_big(e["b"], defs)
+    return r
+
+
 def named(e, defs):
     if e["o"] == "n":
         nm = ("KM%d" % -e["v"]) if e["v"] < 0 else "K%d" % e["v"]
@@ -130,6 +155,40 @@ def run(ctx):
         st = [{"k": "org", "v": 0x7c00}] + [{"k": "equ", "nm": nm, "e": {"o": "n", "v": v}} for nm, v in sorted(defs.items())] + st7
         st += [{"k": "data", "mn": "DD", "items": [{"t": "e", "e": {"o": "id", "nm": nm}}]} for nm in sorted(defs)] + [{"k": "label", "nm": "fin"}]
         R.add(st)
+    # (w) values on both sides of 2^31 / 2^32 (gosk evaluates in 64 bits; TLC's integers are 32 bits wide, so the reference for
+    # these is the exact arithmetic of spec/Big.tla): trees from Gen_Big.tla, as DD operands, over shared EQU names, and as EQU bodies
+    wide = gen_big(ctx, "d1")
+    for part in ("d2l", "d2r", "d2n"):
+        cs = gen_big(ctx, part)
+        if quick:
+            rng.shuffle(cs)
+            cs = cs[:400]
+        wide += cs
+    nwide = 0
+    for i in range(0, len(wide), 12):
+        chunk = wide[i:i + 12]
+        st = [{"k": "org", "v": 0x7c00}]
+        for t in chunk:
+            st.append({"k": "datab", "mn": "DD", "e": t["e"], "defs": {}, "text": render.expr_min(t["e"])})
+            st.append({"k": "datab", "mn": rng.choice(["DD", "DW", "DB"]), "e": t["e"], "defs": {}, "text": render.expr_min(t["e"], redundant=True, sp=" ")})
+            nwide += 2
+        st.append({"k": "label", "nm": "fin"})
+        R.add(st)
+        defs, body = {}, []
+        for t in chunk:
+            e = named_big(t["e"], defs)
+            body.append((e, render.expr_min(e)))
+        st = [{"k": "org", "v": 0x7c00}] + [{"k": "equb", "nm": nm, "e": x} for nm, x in sorted(defs.items())]
+        for j, (e, text) in enumerate(body):
+            st.append({"k": "datab", "mn": "DD", "e": e, "defs": dict(defs), "text": text})
+            d2 = dict(defs)
+            d2["XW%d" % j] = e
+            st.append({"k": "equb", "nm": "XW%d" % j, "e": e, "text": text})
+            st.append({"k": "datab", "mn": "DD", "e": {"o": "id", "nm": "XW%d" % j}, "defs": d2})
+            nwide += 2
+        st.append({"k": "label", "nm": "fin"})
+        R.add(st)
+    npos += nwide
     for t in div0:
         R.add([{"k": "data", "mn": "DD", "items": [{"t": "e", "e": t["e"], "text": render.expr_min(t["e"])}]}, {"k": "label", "nm": "fin"}])
     R.run()
@@ -140,7 +199,7 @@ def run(ctx):
     clean = sum(1 for c in R.cases if not is_diagnosed(R.end(c["id"])))
     cov = {"states": sum(s["distinct"] for s in ctx.tlc_stats), "transitions": sum(s["generated"] for s in ctx.tlc_stats),
            "traces_validated_against_impl": len(R.cases), "trace_events": ver["events"],
-           "trees": len(trees), "positions_checked": npos, "zero_divisor_trees": len(div0),
+           "trees": len(trees), "wide_trees": len(wide), "wide_positions": nwide, "positions_checked": npos, "zero_divisor_trees": len(div0),
            "statements_judged": sum(i["judged"] for i in ver["info"]), "programs_without_diagnostic": clean,
            "evaluations": npos, "distinct_nontrivial": len(trees),
            "rule": "TLC enumerates (Gen_Expr.tla) all trees of depth 1 and depth 2 (left- and right-deep)%s over literals %s and -%s and + - * / %% whose intermediate values fit int32%s; each tree is rendered with minimal parentheses, with redundant parentheses and with blanks around operators, "
